@@ -440,7 +440,7 @@ func mutations(rng *rand.Rand, kind string, b []byte, full bool) [][]byte {
 func (k *checker) decoderTie(rng *rand.Rand, kind string, width int, got []byte, wantVals string) {
 	c := k.c
 	_ = wantVals
-	if !c.HasOracle() || !k.ok || len(got) > tieMaxLen || os.Getenv("C04_GODEC") == "off" {
+	if !c.HasOracle() || !k.ok || !k.tie || len(got) > tieMaxLen || os.Getenv("C04_GODEC") == "off" {
 		return
 	}
 	// (a) the bytes Go encoded: the model of the Go decoder decodes them to the input
@@ -631,7 +631,7 @@ func runForeign(c *core.Ctx) {
 		return
 	}
 	rng := c.Rng
-	n := c.N(1500, 30000)
+	n := c.N(1200, 30000)
 	for i := 0; i < n; i++ {
 		var fc foreignCase
 		switch i % 3 {
